@@ -396,6 +396,70 @@ def oracle_state(t, r1):
     return bad
 
 
+def _outcome(res):
+    return ("ok", ct.canon_tri(res[1], ordered=True)) if res[0] == "ok" else ("err", type(res[1]).__name__)
+
+
+def oracle_accumulate(t, r1, r2):
+    """Triangles assembled piece by piece -- `acc += piece` on an initially EMPTY accumulator that was inspected
+    while empty, `a + b + ...`, `sum(pieces, Triangle([]))` -- hold the same cells as Triangle(all cells) and
+    convert exactly like it (both directions, refusals included)."""
+    from bermuda import Triangle
+
+    cells = list(t.cells)
+    if not cells or len(cells) > 400:
+        return []
+    groups: dict = {}
+    for c in cells:
+        groups.setdefault(py_meta_key(c.metadata), []).append(c)
+    pieces = list(groups.values()) if len(groups) > 1 else [cells[i:i + 2] for i in range(0, len(cells), 2)]
+    want_cells = ct.canon_tri(t, ordered=True)
+    want1, want2 = _outcome(r1), _outcome(r2)
+    first = (lambda x: x.to_cumulative()) if t.is_incremental else (lambda x: x.to_incremental())
+    second = (lambda x: x.to_incremental()) if t.is_incremental else (lambda x: x.to_cumulative())
+    bad = []
+
+    def build_iadd():
+        acc = Triangle([])
+        _ = acc.is_empty, acc.is_incremental, len(acc.slices), acc.to_incremental(), acc.to_cumulative()
+        for p_ in pieces:
+            acc += Triangle(p_)
+        return acc
+
+    def build_add():
+        acc = Triangle([])
+        _ = acc.is_empty, acc.is_incremental
+        for p_ in pieces:
+            acc = acc + Triangle(p_)
+        return acc
+
+    builders = [("acc += piece (accumulator inspected while empty)", build_iadd), ("a + b + ...", build_add),
+                ("sum(pieces, Triangle([]))", lambda: sum((Triangle(p_) for p_ in pieces), Triangle([])))]
+    with warnings.catch_warnings():
+        warnings.simplefilter("ignore")
+        for name, mk in builders:
+            try:
+                acc = mk()
+            except Exception as ex:  # noqa: BLE001
+                bad.append(f"assembling the triangle with {name} raised {type(ex).__name__}")
+                continue
+            if ct.canon_tri(acc, ordered=True) != want_cells:
+                bad.append(f"triangle assembled with {name} does not hold the cells of Triangle(all cells)")
+                continue
+            if acc.is_incremental != t.is_incremental:
+                bad.append(f"triangle assembled with {name}: is_incremental is {acc.is_incremental}, cells are "
+                           f"{type(acc.cells[0]).__name__}")
+            a1 = run_impl(lambda: first(acc))
+            if _outcome(a1) != want1:
+                bad.append(f"triangle assembled with {name}: first conversion gives {res_summary(a1)}, and not what the "
+                           f"conversion of Triangle(all cells) gives ({res_summary(r1)})")
+                continue
+            a2 = run_impl(lambda: second(a1[1])) if a1[0] == "ok" else a1
+            if _outcome(a2) != want2:
+                bad.append(f"triangle assembled with {name}: second conversion differs from that of Triangle(all cells)")
+    return bad[:2]
+
+
 def oracle_identity(t):
     bad = []
     if t.is_incremental:
@@ -1201,6 +1265,7 @@ def oracles_for(case):
             bad += oracle_inc(t, case["r1"], case["r2"])
         else:
             bad += oracle_cum(t, case["r1"], case["r2"])
+        bad += oracle_accumulate(t, case["r1"], case["r2"])
         # last: it edits case["r1"] (already judged above, already printed for Coq)
         bad += oracle_state(t, case["r1"])
         case["r1_edited"] = True
@@ -1290,7 +1355,7 @@ def run(ctx):
         "(-1/-2, -1.0/-2.0, 0/2**61-1) in a detail, loss_detail or the limit, same or different evaluation dates; plus ~60 directed cases per run for the input families of "
         "notes/HARDENING.md (A equal spellings incl. True/1/1.0, B flatten-alike metadata, C calendar corners, D datetime/"
         "Timestamp coordinates, E falsy values and empty value dicts, F empty/one-cell/scalars-after-samples, G numpy scalar "
-        "and narrow/strided array types, H repeated calls and calls after the caller edited a result (every case), I restated "
+        "and narrow/strided array types, H repeated calls and calls after the caller edited a result (every case; also every case re-assembled with `+=` on an inspected empty accumulator, `+` and sum() and converted again), I restated "
         "cells, J overlapping/nested periods, L valid inputs next to each refusal). Non-trivial = "
         "distinct canonical input with >= 2 cells or a refusal.")
     ctx.assumptions += [
